@@ -41,6 +41,33 @@ def shape_key(E):
     return dict(disabled_before_implicit=drift, repr_mode=E.get("repr_mode", "plain"))
 
 
+def handwritten(did):
+    """expression-valued discriminants whose top-level operator binds looser than `+`, each followed by an implicit
+    variant; explicit discriminants on disabled variants that restart the numbering"""
+    from ..defs import variant, enum, field
+    out = []
+
+    def mk(repr_, items, kinds=None):
+        vs = []
+        for k, (name, val, expr, dis) in enumerate(items):
+            v = variant(name, dis=dis)
+            if kinds and kinds[k]:
+                v["kind"], v["fields"], v["nf"] = "tuple", [field("u8")], 1
+            if expr is not None:
+                v["disc"], v["discx"] = [val], expr
+            vs.append(v)
+        E = enum(did + len(out), vs, repr_=repr_)
+        E["anchor_rs"], E["absvals"], E["repr_mode"] = "0", [], "plain"
+        out.append(E)
+    mk("u8", [("A", 16, "1 << 4", False), ("B", 0, None, False), ("C", 7, "BASE | 2", False), ("D", 0, None, False),
+              ("E", 12, "0x0F & 0x3C", False), ("F", 0, None, False), ("G", 5, "6 ^ 3", False), ("H", 0, None, False)])
+    mk("i32", [("A", -500, "-(2 + 3) * 100", False), ("B", 0, None, False), ("C", 1024, "1 << 10", False), ("D", 0, None, False),
+               ("E", 64, "256 >> 2", False), ("F", 0, None, False)], kinds=[0, 1, 0, 1, 0, 0])
+    mk("i8", [("A", -3, "-3", False), ("B", 0, None, False), ("Hole", 40, "40", True), ("C", 0, None, False), ("D", 0, None, False)])
+    mk("u16", [("Hole0", 9, "9", True), ("A", 0, None, False), ("Hole1", 300, "0x12C", True), ("Hole2", 0, None, True), ("B", 0, None, False)])
+    return out
+
+
 def run(tier, seed, rep):
     sz = SIZES[tier]
     rng = random.Random(seed * 179424673 + 41)
@@ -51,6 +78,9 @@ def run(tier, seed, rep):
             for kinds, gen in (("unit", "none"), ("mixed", "none"), ("mixed", "ty")):
                 defs.append(RG.repr_def(rng, did, repr_=r, kinds=kinds, generics=gen))
                 did += 1
+        for E in handwritten(did):
+            defs.append(E)
+            did += 1
         for k in range(sz["sample"]):
             defs.append(RG.repr_def(rng, did, generics=rng.choice(["none", "none", "ty", "const"]), kinds=rng.choice(["unit", "mixed"])))
             did += 1
